@@ -417,6 +417,8 @@ def strategy_paths(f):
     for n in ast.walk(f.node):
         if isinstance(n, ast.Compare) and isinstance(n.left, ast.Name) and _pg_key(n.comparators[0]) in ('high', 'low'):
             qname = n.left.id
+        elif isinstance(n, ast.Compare) and len(n.comparators) == 1 and isinstance(n.comparators[0], ast.Name) and _pg_key(n.left) in ('high', 'low'):
+            qname = n.comparators[0].id                            # pg['high'] < quality
     for ev, ex in pths:
         if ex == 'raise':
             continue
